@@ -3,7 +3,9 @@
 #endif
 #include "opus_private.h"
 #include "shim.h"
+#include "entdec.h"
 #include <stdlib.h>
+extern const unsigned char * const silk_LBRR_flags_iCDF_ptr[2];
 
 static opus_extension_data *to_lib(const opsim_ext *e, int nb) {
   opus_extension_data *x = (opus_extension_data *)malloc(sizeof(*x) * (nb > 0 ? nb : 1));
@@ -81,3 +83,21 @@ int opsim_parse_impl(const unsigned char *data, int len, int self_delimited, uns
 int opsim_force_mode_request(void) { return OPUS_SET_FORCE_MODE_REQUEST; }
 int opsim_voice_ratio_request(void) { return OPUS_SET_VOICE_RATIO_REQUEST; }
 int opsim_mode_const(int which) { return which == 0 ? MODE_SILK_ONLY : which == 1 ? MODE_HYBRID : MODE_CELT_ONLY; }
+
+/* Per-frame LBRR flags of a SILK-only / hybrid packet holding ONE Opus frame (code 0): the SILK header is nf VAD bits and one
+   LBRR bit per coded channel, then (nf > 1) one flag symbol per channel that has the LBRR bit. Returns nf (1..3), or -1 when the packet
+   is not of that shape. Bit f of *mid / *side is the flag of SILK frame f. */
+int opsim_silk_lbrr_flags(const unsigned char *pkt, int len, int *mid, int *side) {
+  int toc, cfg, nf, nch, n, i, any[2] = {0, 0}, fl[2] = {0, 0};
+  ec_dec d;
+  if (len < 2) return -1;
+  toc = pkt[0]; cfg = toc >> 3;
+  if ((toc & 3) != 0 || cfg >= 16) return -1;
+  if (cfg < 12) { int dur = cfg & 3; nf = dur <= 1 ? 1 : dur; } else nf = 1;   /* SILK: 10, 20, 40, 60 ms; hybrid: 10, 20 ms */
+  nch = (toc & 4) ? 2 : 1;
+  ec_dec_init(&d, (unsigned char *)pkt + 1, (opus_uint32)(len - 1));
+  for (n = 0; n < nch; n++) { for (i = 0; i < nf; i++) ec_dec_bit_logp(&d, 1); any[n] = ec_dec_bit_logp(&d, 1); }
+  for (n = 0; n < nch; n++) if (any[n]) fl[n] = nf == 1 ? 1 : ec_dec_icdf(&d, silk_LBRR_flags_iCDF_ptr[nf - 2], 8) + 1;
+  *mid = fl[0]; *side = fl[1];
+  return nf;
+}
